@@ -6,15 +6,48 @@
 open Model
 open Vutil
 
-let parse_op s = match String.split_on_char ':' s with
-  | ["i"; p; d] ->
-    let dg = (if d = "n" then DNone
-              else if d.[0] = 's' then DSched (n_of_hex (String.sub d 1 (String.length d - 1)))
-              else if d.[0] = 'f' then DForced (n_of_hex (String.sub d 1 (String.length d - 1)))
-              else fail "C36: bad digest %s" d) in
-    Imp (n_of_hex p, dg)
-  | ["f"; b; r] -> Fin (n_of_hex b, n_of_hex r)
+let parse_babe = function
+  | "e" -> BEpoch | "c" -> BConfig | "ec" -> BBoth
+  | b -> fail "C36: bad babe digest %s" b
+
+let parse_digest d =
+  if d = "n" then DNone
+  else if d.[0] = 's' then DSched (n_of_hex (String.sub d 1 (String.length d - 1)))
+  else if d.[0] = 'f' then DForced (n_of_hex (String.sub d 1 (String.length d - 1)))
+  else fail "C36: bad digest %s" d
+
+(* an epoch-table token of a finalisation group: epd:<e> cfd:<e> or [del-ned:<e>:<b>+...] *)
+let parse_ekey t = match String.split_on_char ':' t with
+  | ["epd"; e] -> Some (KEpd (n_of_hex e)) | ["cfd"; e] -> Some (KCfd (n_of_hex e))
+  | ["ned"; e; b] | ["del-ned"; e; b] when b <> "?" -> Some (KNed (n_of_hex e, n_of_hex b))
+  | ["ncd"; e; b] | ["del-ncd"; e; b] when b <> "?" -> Some (KNcd (n_of_hex e, n_of_hex b))
+  | _ -> None
+let parse_eunit t =
+  let n = String.length t in
+  if n >= 2 && t.[0] = '[' && t.[n - 1] = ']' then begin
+    let parts = String.split_on_char '+' (String.sub t 1 (n - 2)) in
+    if List.for_all (fun p -> String.length p > 4 && String.sub p 0 4 = "del-") parts then
+      let ks = List.map parse_ekey parts in
+      if List.for_all (fun k -> k <> None) ks then Some (EDel (List.map (function Some k -> k | None -> KFsn) ks)) else None
+    else None
+  end else if n > 4 && (String.sub t 0 4 = "epd:" || String.sub t 0 4 = "cfd:") then
+    (match parse_ekey t with Some k -> Some (EPut k) | None -> None)
+  else None
+
+(* the digest-level operation of the input; the epoch-table writes of a finalisation and the
+   "applied an authority-set change" flag are read off the recorded group of the operation *)
+let parse_dop s (group : string list) =
+  let ep = List.filter_map parse_eunit group in
+  match String.split_on_char ':' s with
+  | ["i"; p; d] -> DImp (n_of_hex p, parse_digest d, BNone)
+  | ["i"; p; d; b] -> DImp (n_of_hex p, parse_digest d, parse_babe b)
+  | ["f"; b; r] -> DFin (n_of_hex b, n_of_hex r, ep)
   | _ -> fail "C36: bad op %s" s
+let observed_op (o : dop) (group : string list) : sop =
+  let applied = List.exists (fun t -> String.length t > 5 && String.sub t 0 5 = "auth:") group in
+  match o with
+  | DImp (p, _, bd) -> Imp (p, applied, bd)
+  | DFin (b, r, ep) -> Fin (b, r, applied, ep)
 
 let x = hex_of_n
 
@@ -32,6 +65,12 @@ let tok_kv (k, v) = match k, v with
   | KJst b, _ -> "jst:" ^ x b
   | KPv (r, s), _ -> Printf.sprintf "pv:%s:%s" (x r) (x s)
   | KPc (r, s), _ -> Printf.sprintf "pc:%s:%s" (x r) (x s)
+  | KNed (e, b), VGone -> Printf.sprintf "del-ned:%s:%s" (x e) (x b)
+  | KNcd (e, b), VGone -> Printf.sprintf "del-ncd:%s:%s" (x e) (x b)
+  | KNed (e, b), _ -> Printf.sprintf "ned:%s:%s" (x e) (x b)
+  | KNcd (e, b), _ -> Printf.sprintf "ncd:%s:%s" (x e) (x b)
+  | KEpd e, _ -> "epd:" ^ x e
+  | KCfd e, _ -> "cfd:" ^ x e
   | _ -> "?"
 
 let tok_unit = function
@@ -48,91 +87,138 @@ let parse_verdict s = match String.split_on_char ':' s with
   | ["ok"; b; r; s'; g] when b <> "?" -> Some (VOk (n_of_hex b, n_of_hex r, n_of_hex s', n_of_hex g))
   | _ -> None
 
+(* the groups of the recorded shape, one per operation ("/" separates them) *)
+let split_groups (stoks : string list) : string list list =
+  let rec go cur acc = function
+    | [] -> List.rev (List.rev cur :: acc)
+    | "/" :: r -> go [] (List.rev cur :: acc) r
+    | t :: r -> go (t :: cur) acc r in
+  if stoks = [] || stoks = ["-"] then [] else go [] [] stoks
+
+let is_marker t = String.length t >= 4 && String.sub t 0 4 = "err-"
+let is_rewrite t = String.length t >= 8 && String.sub t 0 8 = "change~:"
+
+(* the operations as they happened: from the input and the recorded groups *)
+let observed_ops (ops : string list) (groups : string list list) : (dop list * sop list) option =
+  if List.length ops <> List.length groups then None
+  else begin
+    let dops = List.map2 parse_dop ops groups in
+    Some (dops, List.map2 observed_op dops groups)
+  end
+
 let check inp obs =
   match split_ws inp with
   | "sc" :: ops ->
-    let pops = List.map parse_op ops in
-    let valid = scenario_valid pops in
-    (* model: per-operation units *)
-    let groups = ref [] and st = ref sim0 in
-    List.iter (fun o -> let (ws, st') = step set_change_units !st o in
-                if ws <> [] then groups := List.map tok_unit ws :: !groups; st := st') pops;
-    let groups = List.rev !groups in
-    let mshape = if groups = [] then "-" else String.concat " / " (List.map (String.concat " ") groups) in
-    let (_, mver) = scenario_points pops in
-    let mres = String.concat " " (List.map str_verdict mver) in
-    let nsched = List.length (List.filter (function Imp (_, DSched _) -> true | _ -> false) pops)
-    and nforced = List.length (List.filter (function Imp (_, DForced _) -> true | _ -> false) pops)
-    and nfin = List.length (List.filter (function Fin _ -> true | _ -> false) pops) in
-    let refin = (let st = ref sim0 and hit = ref false in
-                 List.iter (fun o -> (match o with Fin (b, _) when b = !st.s_fin && Model.valid !st o -> hit := true | _ -> ());
-                             st := snd (step set_change_units !st o)) pops; !hit) in
-    let base_tags = (if refin then "refinalise-head," else "") ^ Printf.sprintf "scenario,crash-points-%s,fin-%d%s%s"
-        (let n = List.length mver in if n < 10 then "1..9" else if n < 30 then "10..29" else if n < 60 then "30..59" else "60+")
-        nfin (if nsched > 0 then ",scheduled-change" else "") (if nforced > 0 then ",forced-change" else "") in
     if String.length obs >= 4 && String.sub obs 0 4 = "err:" then
-      { prop_ok = true; model_eq = not valid; nontrivial = false; finding = "-";
-        tags = "scenario-rejected";
-        detail = (if valid then "the model considers the scenario valid but the services failed: " ^ obs else "") }
+      { prop_ok = true; model_eq = false; nontrivial = false; finding = "-"; tags = "scenario-rejected";
+        detail = "the services failed on a generated scenario: " ^ obs }
     else begin
       match String.split_on_char '#' obs with
       | [shape; results] ->
         let stoks = split_ws shape and rtoks = Array.of_list (split_ws results) in
-        (* property predicate on the implementation's own observables *)
+        (* ---- property predicate on the implementation's own observables ---- *)
         let vers = Array.to_list (Array.map parse_verdict rtoks) in
         let all_parsed = List.for_all (fun v -> v <> None) vers in
         (* every write index of the recorded log has its crash point: one verdict per recorded
-           unit (the "/" and "-" tokens are separators) plus the one before the first unit *)
-        let nunits = List.length (List.filter (fun t -> t <> "/" && t <> "-") stoks) in
+           unit ("/" and "-" are separators, err-* are markers) plus the one before the first unit *)
+        let nunits = List.length (List.filter (fun t -> t <> "/" && t <> "-" && not (is_marker t)) stoks) in
         let complete = (Array.length rtoks = nunits + 1) in
         let prop = all_parsed && complete &&
                    all_ok_monotone None (List.map (function Some v -> v | None -> VFail N0) vers) in
         let first_bad = (let rec go i = if i >= Array.length rtoks then "" else
                             if parse_verdict rtoks.(i) = None then Printf.sprintf "crash point %d: %s" i rtoks.(i) else go (i + 1) in go 0) in
-        (* a rewrite of the activation block of an existing set (change~) is not modelled: drop it
-           together with the crash point after it *)
-        let keep_units = ref [] and keep_res = ref [rtoks.(0)] and j = ref 0 in
-        List.iter (fun t ->
-            if t = "/" || t = "-" then (if t = "/" then keep_units := t :: !keep_units)
-            else begin
-              incr j;
-              let dropped = String.length t >= 8 && String.sub t 0 8 = "change~:" in
-              if not dropped then begin
-                keep_units := t :: !keep_units;
-                if !j < Array.length rtoks then keep_res := rtoks.(!j) :: !keep_res
-              end
-            end) stoks;
-        let oshape = (let l = List.rev !keep_units in if l = [] then "-" else String.concat " " l) in
-        let ores = String.concat " " (List.rev !keep_res) in
-        let eq = valid && oshape = mshape && ores = mres in
-        { prop_ok = prop; model_eq = eq; nontrivial = List.length mver > 1; finding = "-"; tags = base_tags;
-          detail = (if prop && eq then "" else
-                    Printf.sprintf "%s%s model-shape=[%s] model-verdicts=[%s]"
-                      (if prop then "" else if not complete then Printf.sprintf "%d crash points reported for %d recorded write units; " (Array.length rtoks) nunits
-                       else "restart after a crash violates the property at " ^ (if first_bad = "" then "a non-monotone point" else first_bad) ^ "; ")
-                      (if valid then "" else "model: invalid scenario;") mshape mres) }
+        (* ---- the model on the operations as they happened ---- *)
+        let groups = split_groups stoks in
+        (match observed_ops ops groups with
+         | None ->
+           { prop_ok = prop; model_eq = false; nontrivial = true; finding = "-"; tags = "scenario";
+             detail = "the recorded log has not one group per operation" }
+         | Some (dops, pops) ->
+           let valid = scenario_valid pops in
+           let single = single_pending dops in
+           let flags_ok = (not single) || predict dops = pops in
+           let mgroups = ref [] and st = ref sim0 in
+           List.iter (fun o -> let (ws, st') = step set_change_units !st o in
+                       mgroups := List.map tok_unit ws :: !mgroups; st := st') pops;
+           let mshape = String.concat " / " (List.map (String.concat " ") (List.rev !mgroups)) in
+           let (_, mver) = scenario_points pops in
+           let mres = String.concat " " (List.map str_verdict mver) in
+           (* a rewrite of the activation block of an existing set (change~) is not modelled: drop
+              it together with the crash point after it; markers are not units *)
+           let keep_units = ref [] and keep_res = ref [rtoks.(0)] and j = ref 0 in
+           List.iter (fun t ->
+               if t = "/" then keep_units := t :: !keep_units
+               else if t = "-" || is_marker t then ()
+               else begin
+                 incr j;
+                 if not (is_rewrite t) then begin
+                   keep_units := t :: !keep_units;
+                   if !j < Array.length rtoks then keep_res := rtoks.(!j) :: !keep_res
+                 end
+               end) stoks;
+           let oshape = String.concat " " (List.rev !keep_units) in
+           let ores = String.concat " " (List.rev !keep_res) in
+           let eq = valid && flags_ok && oshape = mshape && ores = mres in
+           let count p l = List.length (List.filter p l) in
+           let nfin = count (function Fin _ -> true | _ -> false) pops in
+           let napplied = count (function Imp (_, a, _) -> a | Fin (_, _, a, _) -> a) pops in
+           let refin = (let st = ref sim0 and hit = ref false in
+                        List.iter (fun o -> (match o with Fin (b, _, _, _) when b = !st.s_fin && Model.valid !st o -> hit := true | _ -> ());
+                                    st := snd (step set_change_units !st o)) pops; !hit) in
+           let has_babe = List.exists (function Imp (_, _, BNone) -> false | Imp _ -> true | _ -> false) pops in
+           let has_efin = List.exists (function Fin (_, _, _, _ :: _) -> true | _ -> false) pops in
+           let tags = String.concat "," (List.filter (fun t -> t <> "") [
+               "scenario"; (if single then "single-pending" else "multi-pending");
+               (if refin then "refinalise-head" else "");
+               (let n = List.length mver in "crash-points-" ^ (if n < 10 then "1..9" else if n < 30 then "10..29" else if n < 60 then "30..59" else "60+"));
+               Printf.sprintf "fin-%d" nfin; Printf.sprintf "set-changes-%d" (min napplied 3);
+               (if List.exists (function DImp (_, DSched _, _) -> true | _ -> false) dops then "scheduled-change" else "");
+               (if List.exists (function DImp (_, DForced _, _) -> true | _ -> false) dops then "forced-change" else "");
+               (if has_babe then "babe-digest" else ""); (if has_efin then "epoch-data-finalised" else "");
+               (if List.exists is_marker stoks then "change-refused" else "") ]) in
+           { prop_ok = prop; model_eq = eq; nontrivial = List.length mver > 1; finding = "-"; tags;
+             detail = (if prop && eq then "" else
+                       Printf.sprintf "%s%s%s model-shape=[%s] model-verdicts=[%s]"
+                         (if prop then "" else if not complete then Printf.sprintf "%d crash points reported for %d recorded write units; " (Array.length rtoks) nunits
+                          else "restart after a crash violates the property at " ^ (if first_bad = "" then "a non-monotone point" else first_bad) ^ "; ")
+                         (if valid then "" else "model: invalid scenario;")
+                         (if flags_ok then "" else "single-pending predictor disagrees about where a set change is applied;") mshape mres) })
       | _ -> { prop_ok = true; model_eq = false; nontrivial = false; finding = "-"; tags = "malformed"; detail = "malformed observation" }
     end
   | _ -> fail "C36: bad input %s" inp
 
-(* vm_compute cross-check: the model's verdicts recomputed inside Coq and compared with the
-   verdicts of the real restarts (scenarios without the unmodelled change~ rewrite) *)
-let coq_dig = function DNone -> "DNone" | DSched d -> "(DSched " ^ coq_n d ^ ")" | DForced d -> "(DForced " ^ coq_n d ^ ")"
+(* vm_compute cross-check: the model's verdicts for the operations as they happened, recomputed
+   inside Coq and compared with the verdicts of the real restarts (scenarios without the
+   unmodelled change~ rewrite) *)
+let coq_babe = function BNone -> "BNone" | BEpoch -> "BEpoch" | BConfig -> "BConfig" | BBoth -> "BBoth"
+let coq_key = function
+  | KNed (e, b) -> Printf.sprintf "KNed %s %s" (coq_n e) (coq_n b)
+  | KNcd (e, b) -> Printf.sprintf "KNcd %s %s" (coq_n e) (coq_n b)
+  | KEpd e -> "KEpd " ^ coq_n e | KCfd e -> "KCfd " ^ coq_n e
+  | _ -> "KFsn"
+let coq_eunit = function
+  | EPut k -> "EPut (" ^ coq_key k ^ ")"
+  | EDel l -> "EDel [" ^ String.concat "; " (List.map coq_key l) ^ "]"
+let coq_bool b = if b then "true" else "false"
 let coq_sop = function
-  | Imp (p, d) -> Printf.sprintf "Imp %s %s" (coq_n p) (coq_dig d)
-  | Fin (b, r) -> Printf.sprintf "Fin %s %s" (coq_n b) (coq_n r)
+  | Imp (p, a, bd) -> Printf.sprintf "Imp %s %s %s" (coq_n p) (coq_bool a) (coq_babe bd)
+  | Fin (b, r, a, ep) -> Printf.sprintf "Fin %s %s %s [%s]" (coq_n b) (coq_n r) (coq_bool a)
+                           (String.concat "; " (List.map coq_eunit ep))
 let coq_verdict = function
   | VOk (b, r, s, g) -> Printf.sprintf "VOk %s %s %s %s" (coq_n b) (coq_n r) (coq_n s) (coq_n g)
   | VFail st -> "VFail " ^ coq_n st
 let coq inp obs =
   match split_ws inp, String.split_on_char '#' obs with
   | "sc" :: ops, [shape; results] ->
-    let has_rewrite = List.exists (fun t -> String.length t >= 8 && String.sub t 0 8 = "change~:") (split_ws shape) in
+    let stoks = split_ws shape in
     let vers = List.map parse_verdict (split_ws results) in
-    if has_rewrite || List.exists (fun v -> v = None) vers || List.length vers > 120 then None
-    else Some (Printf.sprintf "vm_case [%s] [%s]"
-                 (String.concat "; " (List.map (fun o -> coq_sop (parse_op o)) ops))
-                 (String.concat "; " (List.map (function Some v -> coq_verdict v | None -> "VFail 0%N") vers)))
+    if List.exists is_rewrite stoks || List.exists (fun v -> v = None) vers || List.length vers > 120 then None
+    else (match observed_ops ops (split_groups stoks) with
+        | None -> None
+        | Some (_, pops) ->
+          Some (Printf.sprintf "vm_case [%s] [%s]"
+                  (String.concat "; " (List.map coq_sop pops))
+                  (String.concat "; " (List.map (function Some v -> coq_verdict v | None -> "VFail 0%N") vers))))
   | _ -> None
 
 let () = run_driver ~coq check
